@@ -406,3 +406,38 @@ Section Eras.
   Lemma era_complete e t : exact H224 SHA3 edverify t -> era_accept e t = true.
   Proof. intros X. apply complete_gen. exact X. Qed.
 End Eras.
+
+(* ---- what acceptance means under the usual cryptographic idealisations ---------
+   Collision-freeness of H224 and soundness of verification w.r.t. an abstract
+   "the holder of pk signed msg" relation are explicit premises. *)
+Section Authorised.
+  Variable H224 : bytes -> bytes.
+  Variable SHA3 : bytes -> bytes.
+  Variable edverify : bytes -> bytes -> bytes -> bool.
+  Variable Signed : bytes -> bytes -> Prop.      (* holder of pk signed msg *)
+  Hypothesis H224_inj : forall a b, H224 a = H224 b -> a = b.
+  Hypothesis edverify_sound : forall pk msg sg, edverify pk msg sg = true -> Signed pk msg.
+
+  Lemma key_owner_authorised e t :
+    In e era_table -> tx_fits e t -> era_accept H224 SHA3 edverify e t = true ->
+    forall pk, In (ROut (AKey (H224 pk))) (inputs t ++ collateral t) -> Signed pk (txid t).
+  Proof.
+    intros He F A pk Hin.
+    pose proof (spec_owner_signed H224 SHA3 edverify t
+      (exact_spec H224 SHA3 edverify t (era_sound H224 SHA3 edverify e t He F A)) _ Hin) as X.
+    cbn in X. destruct X as (w & _ & E & V). apply H224_inj in E. subst pk.
+    eapply edverify_sound. exact V.
+  Qed.
+
+  Lemma required_signer_authorised e t :
+    In e era_table -> tx_fits e t -> era_accept H224 SHA3 edverify e t = true ->
+    forall pk, In (H224 pk) (req_signers t) -> Signed pk (txid t).
+  Proof.
+    intros He F A pk Hin.
+    destruct (exact_spec H224 SHA3 edverify t (era_sound H224 SHA3 edverify e t He F A))
+      as (_ & _ & (V & _) & Q).
+    assert (In (H224 pk) (vkey_hashes H224 t)) as Hh by (apply Q; apply in_or_app; left; exact Hin).
+    destruct (in_hashes H224 t _ Hh) as (w & Hw & E). apply H224_inj in E. subst pk.
+    destruct (V w Hw) as (_ & _ & Vw). eapply edverify_sound. exact Vw.
+  Qed.
+End Authorised.
